@@ -264,6 +264,10 @@ macro_rules! post_step {
                     // C08: post-increment / pre-decrement / stack forms update the full 32-bit address register by the
                     // operand size and nothing else touches an address register (the register file as a whole)
                     11 => assert!(regs_match(&$cpu.er, &exp), concat!("OBL:C08/", stringify!($l), "/address_registers")),
+                    // C07: a valid encoding runs as exactly the instruction it encodes and consumes exactly its length
+                    // (decoding inside the entry functions included)
+                    12 => assert!(regs_match(&$cpu.er, &exp) && $cpu.pc == exp.st.pc && writes_done(&exp) && writes_in_frame(&exp),
+                        concat!("OBL:C07/", stringify!($l), "/executed_as_encoded_with_its_length")),
                     _ => {}
                 }
             }
